@@ -15,6 +15,12 @@ from .values import (
     znot, zor,
 )
 
+def _ext(st, f, fns):
+    """A library fact that characterises FRESH function symbols (see rel.EXT)."""
+    from .rel import ext_fact
+    ext_fact(st, f, [x.name() if hasattr(x, "name") else str(x) for x in fns])
+
+
 USED: set[str] = set()  # names of library models exercised in this process (for the trusted-base report)
 
 
@@ -54,8 +60,11 @@ def fstr(st, prefix, d):
         if k.startswith(prefix) and _re.fullmatch(r"-?\d+", k[len(prefix):] or "x"):
             raise Unsupported(f"f-string key family {prefix!r} collides with the constant {k!r}")
     pid = intern_str("$fprefix$" + prefix)
-    t = _FSTR(z3.IntVal(pid), to_z3(d))
-    st.fact(z3.And(t < 0, _FSTR_ARG(t) == to_z3(d), _FSTR_PRE(t) == pid))
+    # an explicit injective code (no uninterpreted function, no axiom the solver would have to build a model for):
+    # negative, so different from every interned constant (>= 1000); (prefix id, d) is recoverable from it
+    dz = to_z3(d)
+    enc = z3.If(dz >= 0, 2 * dz, -2 * dz - 1)
+    t = -(1 + pid + 10000000 * enc)
     return VStr(t, None, fparts=(prefix, d))
 
 
@@ -1097,13 +1106,13 @@ def np_argsort(I, st, args, kw, node):
     p = z3.Function(fresh_name("perm"), z3.IntSort(), z3.IntSort())
     q = z3.Function(fresh_name("perminv"), z3.IntSort(), z3.IntSort())
     i, j = z3.Int(fresh_name("i")), z3.Int(fresh_name("j"))
-    st.fact(z3.ForAll([i], z3.Implies(z3.And(i >= 0, i < n), z3.And(p(i) >= 0, p(i) < n, q(p(i)) == i))))
-    st.fact(z3.ForAll([i], z3.Implies(z3.And(i >= 0, i < n), z3.And(q(i) >= 0, q(i) < n, p(q(i)) == i))))
+    _ext(st, z3.ForAll([i], z3.Implies(z3.And(i >= 0, i < n), z3.And(p(i) >= 0, p(i) < n, q(p(i)) == i))), [p, q])
+    _ext(st, z3.ForAll([i], z3.Implies(z3.And(i >= 0, i < n), z3.And(q(i) >= 0, q(i) < n, p(q(i)) == i))), [p, q])
     x, y = num_pair(to_z3(a.elem(p(i))), to_z3(a.elem(p(j))))
-    st.fact(z3.ForAll([i, j], z3.Implies(z3.And(i >= 0, i <= j, j < n), x <= y)))
+    _ext(st, z3.ForAll([i, j], z3.Implies(z3.And(i >= 0, i <= j, j < n), x <= y)), [p, q])
     # surjectivity in existential form (helps instantiation): every position is hit
-    st.fact(z3.ForAll([j], z3.Implies(z3.And(j >= 0, j < n), z3.Exists([i], z3.And(i >= 0, i < n, p(i) == j))),
-                      patterns=[HINT(j)]))
+    _ext(st, z3.ForAll([j], z3.Implies(z3.And(j >= 0, j < n), z3.Exists([i], z3.And(i >= 0, i < n, p(i) == j))),
+                      patterns=[HINT(j)]), [p, q])
     return st.alloc(Arr((a.shape[0],), lambda t: p(to_z3(t)), kind="ndarray", etype="int"), "arr")
 
 
